@@ -350,6 +350,12 @@ func (m *dataModel) Key() (string, []int) {
 	for i := range m.side {
 		ds := m.ds[i]
 		k += fmt.Sprintf(" D%d[%d/%d r=%d e=%d ps=%d/%d pr=%d/%d]", i, ds.sentTally, ds.readTally, len(ds.read), len(ds.expect), ds.pairSentB, ds.pairSentP, ds.pairRecvB, ds.pairRecvP)
+		// the implementation's own counters too: merging on the harness's tallies alone would hide a miscount in a visited state
+		k += fmt.Sprintf(" I%d[%d/%d", i, m.side[i].conn.BytesSent(), m.side[i].conn.BytesReceived())
+		if st, ok := m.side[i].agent.GetSelectedCandidatePairStats(); ok {
+			k += fmt.Sprintf(" %d/%d %d/%d", st.BytesSent, st.PacketsSent, st.BytesReceived, st.PacketsReceived)
+		}
+		k += "]"
 	}
 
 	return k, append(spent, m.writes)
